@@ -31,6 +31,14 @@ theorem region_index_spec (A : List Bool) (reg : Arr Int) (r : Int) (hl : reg.le
     IdxSpec A (regionSel reg r) (regionIndex A (compress A reg) r) :=
   regionIndex_spec A reg r hl
 
+/-- `region_index` as written (one pass with a running active index) is the closed form the
+model uses; `Fieldprops::compress` as written (in-place shifting pass + resize) is the
+abstraction function `compress`. -/
+theorem loops_as_written (A : List Bool) (region : Arr Int) (r : Int) {β : Type} (x : List β)
+    (hx : x.length = A.length) :
+    regionIndexLoop region r A 0 0 = regionIndex A region r ∧ compressLoop A 0 0 x = compress A x :=
+  ⟨regionIndexLoop_spec A region r, compressLoop_eq A x hx⟩
+
 /-- `GridDims::getIJK` and `getGlobalIndex` are inverse to each other on the grid. -/
 theorem ijk_global_bij (D : Dims) (g i j k : Nat) (hi : i < D.nx) (hj : j < D.ny) :
     D.globalIndex (D.ijk g).1 (D.ijk g).2.1 (D.ijk g).2.2 = g ∧ D.ijk (D.globalIndex i j k) = (i, j, k) :=
@@ -183,6 +191,9 @@ example : DPos sampleD := by simp [DPos, sampleD]
 example : sampleA.length = sampleD.size := by decide
 example : indexList sampleD sampleA sampleB =
     [⟨2, 1, 1⟩, ⟨4, 3, 2⟩, ⟨7, 4, 4⟩, ⟨8, 5, 5⟩, ⟨11, 7, 7⟩] := by decide
+example : compressLoop sampleA 0 0 (List.range 12) = [0, 2, 3, 4, 7, 8, 9, 11] := by decide
+example : regionIndexLoop [⟨.deckValue, 5⟩, ⟨.deckValue, 7⟩, ⟨.deckValue, 5⟩] 5 [true, false, true, true] 0 0 =
+    [⟨0, 0, 0⟩, ⟨3, 2, 3⟩] := by decide
 
 instance : RealOps Int where
   one := 1
